@@ -188,11 +188,7 @@ func (u *Unit) exec(st *State, s ast.Stmt) *State {
 	case *ast.GoStmt:
 		if u.isAbstract("go") {
 			u.noteAbstract(x.Pos(), "go statement: heap havocked")
-			for _, k := range u.allHeapKeys() {
-				if k != allocKey {
-					u.havocHeap(st, k)
-				}
-			}
+			u.havocAll(st)
 			return st
 		}
 		u.unsupported(x.Pos(), "go statement")
@@ -331,7 +327,9 @@ func (u *Unit) join2(base *State, c string, a, b *State) *State {
 	if b == nil {
 		return a
 	}
+	epoch := u.syncEpochs([]*State{a, b})
 	out := base.clone()
+	out.epoch = epoch
 	nb := len(base.hyps)
 	nc := sNot(c)
 	for _, h := range a.hyps[nb:] {
@@ -380,22 +378,19 @@ func (u *Unit) join2(base *State, c string, a, b *State) *State {
 		hk[k] = true
 	}
 	for k := range hk {
-		dflt, ok := base.heap[k]
-		if !ok {
-			dflt = u.heapGet(out, k, u.heapSorts[k])
-		}
-		av, aok := a.heap[k]
-		bv, bok := b.heap[k]
-		if !aok {
-			av = dflt
-		}
-		if !bok {
-			bv = dflt
-		}
+		av := u.heapGet(a, k, u.heapSorts[k])
+		bv := u.heapGet(b, k, u.heapSorts[k])
+		delete(out.heap, k)
 		if av == bv {
 			out.heap[k] = av
 		} else {
-			u.heapSet(out, k, u.heapSorts[k], sIte(c, av, bv))
+			t := sIte(c, av, bv)
+			if len(t) > 120 {
+				n := u.fresh(k, u.heapSorts[k])
+				out.assume(sEq(n, t))
+				t = n
+			}
+			out.heap[k] = t
 		}
 	}
 	gk := map[string]bool{}
@@ -613,6 +608,7 @@ type loopMods struct {
 	vars  []types.Object
 	heap  []string
 	ghost []string
+	all   bool // the body may havoc the whole heap
 }
 
 // discover runs body once on a scratch state to find what it may modify.
@@ -661,6 +657,9 @@ func (u *Unit) discover(st *State, run func(s *State) []*State) loopMods {
 		if o == nil {
 			continue
 		}
+		if o.epoch != st.epoch {
+			m.all = true
+		}
 		for k, v := range o.vars {
 			if bv, ok := st.vars[k]; ok && bv.T != v.T && !seenV[k] {
 				seenV[k] = true
@@ -669,7 +668,7 @@ func (u *Unit) discover(st *State, run func(s *State) []*State) loopMods {
 		}
 		for k, v := range o.heap {
 			if bv, ok := st.heap[k]; (!ok || bv != v) && !seenH[k] {
-				if !ok && v == k+"$0" {
+				if !ok && v == k+"$"+st.epoch {
 					continue
 				}
 				seenH[k] = true
@@ -690,6 +689,10 @@ func (u *Unit) discover(st *State, run func(s *State) []*State) loopMods {
 }
 
 func (u *Unit) havocMods(st *State, m loopMods) {
+	if m.all {
+		u.havocAll(st)
+		m.heap = nil
+	}
 	for _, o := range m.vars {
 		old := st.vars[o]
 		v := Val{T: u.fresh(o.Name(), old.So), Ty: old.Ty, So: old.So}
@@ -798,6 +801,7 @@ func (u *Unit) execFor(st *State, x *ast.ForStmt) *State {
 	u.checkInvs(ls, n, "inv.init", u.loopEnv(st, scope, pos, nil), st, x.Pos())
 	head := st.clone()
 	u.havocMods(head, mods)
+	u.loopFrame(ls, n, st, head, mods, u.loopEnv(st, scope, pos, nil), x.Pos(), false)
 	u.assumeInvs(ls, u.loopEnv(head, scope, pos, nil), head, x.Pos())
 	c := "true"
 	if x.Cond != nil {
@@ -824,6 +828,7 @@ func (u *Unit) execFor(st *State, x *ast.ForStmt) *State {
 		}
 		if j != nil {
 			u.checkInvs(ls, n, "inv.keep", u.loopEnv(j, scope, pos, nil), j, x.Pos())
+			u.loopFrame(ls, n, st, j, mods, u.loopEnv(st, scope, pos, nil), x.Pos(), true)
 		}
 	}
 	var exit *State
@@ -931,6 +936,7 @@ func (u *Unit) execRange(st *State, x *ast.RangeStmt) *State {
 		u.checkInvs(ls, n, "inv.init", u.loopEnv(init, scope, pos, extra("0")), init, x.Pos())
 		head := st.clone()
 		u.havocMods(head, mods)
+		u.loopFrame(ls, n, st, head, mods, u.loopEnv(st, scope, pos, nil), x.Pos(), false)
 		k := u.fresh("i", "Int")
 		head.assume(sAnd(app("<=", "0", k), app("<=", k, length)))
 		hb := head.clone()
@@ -947,6 +953,7 @@ func (u *Unit) execRange(st *State, x *ast.RangeStmt) *State {
 			k1 := app("+", k, "1")
 			bindIter(j, k1)
 			u.checkInvs(ls, n, "inv.keep", u.loopEnv(j, scope, pos, extra(k1)), j, x.Pos())
+			u.loopFrame(ls, n, st, j, mods, u.loopEnv(st, scope, pos, nil), x.Pos(), true)
 		}
 		exit := head.clone()
 		exit.assume(sEq(k, length))
@@ -985,6 +992,7 @@ func (u *Unit) execRange(st *State, x *ast.RangeStmt) *State {
 		u.checkInvs(ls, n, "inv.init", u.loopEnv(st, scope, pos, extra(empty)), st, x.Pos())
 		head := st.clone()
 		u.havocMods(head, mods)
+		u.loopFrame(ls, n, st, head, mods, u.loopEnv(st, scope, pos, nil), x.Pos(), false)
 		vis := u.fresh("visited", setSort)
 		u.nfresh++
 		q := fmt.Sprintf("vk!%d", u.nfresh)
@@ -999,6 +1007,7 @@ func (u *Unit) execRange(st *State, x *ast.RangeStmt) *State {
 			j, _ := u.joinN(body, arms, nil)
 			vis1 := app("store", vis, k, "true")
 			u.checkInvs(ls, n, "inv.keep", u.loopEnv(j, scope, pos, extra(vis1)), j, x.Pos())
+			u.loopFrame(ls, n, st, j, mods, u.loopEnv(st, scope, pos, nil), x.Pos(), true)
 		}
 		exit := head.clone()
 		exit.assume(fmt.Sprintf("(forall ((%s %s)) (! (=> (select %s %s) (select %s %s)) :pattern ((select %s %s))))", q, ks, dom, q, vis, q, dom, q))
@@ -1019,6 +1028,7 @@ func (u *Unit) execRange(st *State, x *ast.RangeStmt) *State {
 		u.checkInvs(ls, n, "inv.init", u.loopEnv(st, scope, pos, nil), st, x.Pos())
 		head := st.clone()
 		u.havocMods(head, mods)
+		u.loopFrame(ls, n, st, head, mods, u.loopEnv(st, scope, pos, nil), x.Pos(), false)
 		u.assumeInvs(ls, u.loopEnv(head, scope, pos, nil), head, x.Pos())
 		body := head.clone()
 		if keyObj != nil {
@@ -1043,6 +1053,7 @@ func (u *Unit) execRange(st *State, x *ast.RangeStmt) *State {
 		if arms := continues(ft, fr); len(arms) > 0 {
 			j, _ := u.joinN(body, arms, nil)
 			u.checkInvs(ls, n, "inv.keep", u.loopEnv(j, scope, pos, nil), j, x.Pos())
+			u.loopFrame(ls, n, st, j, mods, u.loopEnv(st, scope, pos, nil), x.Pos(), true)
 		}
 		exit := head.clone()
 		return u.joinBreaks(head, exit, fr)
